@@ -96,6 +96,11 @@ def ll_weak(x):
     return float(-0.5 * np.sum((x - 1.0) ** 2) / 2500.0)
 
 
+def ll_param(x, offset=0.0, scale=1.0):
+    """A plain module-level likelihood with extra parameters (bound through log_likelihood_args / log_likelihood_kwargs)."""
+    return ll_gauss(x) * scale + offset
+
+
 def ll_flat(x):
     return 0.0
 
